@@ -31,13 +31,28 @@ use std::thread::ThreadId;
 enum Node {
     F,
     D(Vec<Node>),
+    /// a directory that cannot be listed (mode 000; such forests are walked with fsuid nobody): the visitor gets the
+    /// entry and then an error visit, which is not an entry
+    X(Vec<Node>),
+}
+
+extern "C" {
+    fn setfsuid(uid: u32) -> i32;
+}
+
+fn has_locked(n: &Node) -> bool {
+    match n {
+        Node::F => false,
+        Node::X(_) => true,
+        Node::D(ks) => ks.iter().any(has_locked),
+    }
 }
 
 fn show_node(n: &Node, out: &mut String) {
     match n {
         Node::F => out.push('f'),
-        Node::D(ks) => {
-            out.push_str("d(");
+        Node::D(ks) | Node::X(ks) => {
+            out.push_str(if matches!(n, Node::X(_)) { "x(" } else { "d(" });
             for (i, k) in ks.iter().enumerate() {
                 if i > 0 {
                     out.push(',');
@@ -66,7 +81,9 @@ fn parse_node(b: &[u8], i: &mut usize) -> Option<Node> {
             *i += 1;
             Some(Node::F)
         }
-        b'd' => {
+        c @ (b'd' | b'x') => {
+            let locked = *c == b'x';
+            let mk = move |ks: Vec<Node>| if locked { Node::X(ks) } else { Node::D(ks) };
             *i += 1;
             if b.get(*i)? != &b'(' {
                 return None;
@@ -75,7 +92,7 @@ fn parse_node(b: &[u8], i: &mut usize) -> Option<Node> {
             let mut ks = vec![];
             if b.get(*i)? == &b')' {
                 *i += 1;
-                return Some(Node::D(ks));
+                return Some(mk(ks));
             }
             loop {
                 ks.push(parse_node(b, i)?);
@@ -83,7 +100,7 @@ fn parse_node(b: &[u8], i: &mut usize) -> Option<Node> {
                     b',' => *i += 1,
                     b')' => {
                         *i += 1;
-                        return Some(Node::D(ks));
+                        return Some(mk(ks));
                     }
                     _ => return None,
                 }
@@ -110,17 +127,21 @@ fn parse_forest(s: &str) -> Option<Vec<Node>> {
 fn count_nodes(n: &Node) -> usize {
     match n {
         Node::F => 1,
-        Node::D(ks) => 1 + ks.iter().map(count_nodes).sum::<usize>(),
+        Node::D(ks) | Node::X(ks) => 1 + ks.iter().map(count_nodes).sum::<usize>(),
     }
 }
 
 fn materialise(path: &Path, n: &Node) {
     match n {
         Node::F => std::fs::write(path, b"x").unwrap(),
-        Node::D(ks) => {
+        Node::D(ks) | Node::X(ks) => {
             std::fs::create_dir_all(path).unwrap();
             for (i, k) in ks.iter().enumerate() {
                 materialise(&path.join(format!("c{}", i)), k);
+            }
+            if matches!(n, Node::X(_)) {
+                use std::os::unix::fs::PermissionsExt;
+                std::fs::set_permissions(path, std::fs::Permissions::from_mode(0o000)).unwrap();
             }
         }
     }
@@ -140,8 +161,11 @@ fn list(path: &Path, next: &mut usize) -> Listed {
     let mut kids = vec![];
     let md = std::fs::symlink_metadata(path).unwrap();
     if md.is_dir() {
-        for e in std::fs::read_dir(path).unwrap() {
-            kids.push(list(&e.unwrap().path(), next));
+        // an unreadable directory has no children as far as any walker can tell
+        if let Ok(rd) = std::fs::read_dir(path) {
+            for e in rd {
+                kids.push(list(&e.unwrap().path(), next));
+            }
         }
     }
     Listed { label, path: path.to_path_buf(), kids }
@@ -155,6 +179,22 @@ fn listed_sx(l: &Listed, out: &mut String) {
         listed_sx(k, out);
     }
     out.push(')');
+}
+
+/// The tree as the walker sees it when the visitor answers Skip for the entries `skip`: they keep no children.
+fn prune(l: &Listed, skip: &[usize]) -> Listed {
+    Listed {
+        label: l.label,
+        path: l.path.clone(),
+        kids: if skip.contains(&l.label) { vec![] } else { l.kids.iter().map(|k| prune(k, skip)).collect() },
+    }
+}
+
+fn labels_of(l: &Listed, out: &mut Vec<usize>) {
+    out.push(l.label);
+    for k in &l.kids {
+        labels_of(k, out);
+    }
 }
 
 fn collect_labels(l: &Listed, map: &mut BTreeMap<PathBuf, usize>) {
@@ -202,11 +242,13 @@ struct Inner {
     decisions: Vec<Decision>,
     posts: Vec<Option<Arrive>>,
     visits: Vec<(usize, usize, PathBuf)>,
+    error_visits: Vec<String>,
     policy: Policy,
     abort: Option<String>,
     max_steps: usize,
     init_lens: Option<Vec<usize>>,
-    quit_at: Option<usize>,
+    quit_at: Vec<usize>,
+    skip_paths: BTreeSet<PathBuf>,
     /// per worker: number of consecutive idle-loop transitions (Pop->Steal, Steal->Sleep, Sleep->Pop) it made
     /// while every deque was empty; reset for everybody as soon as anything else happens
     idle_streak: Vec<usize>,
@@ -422,12 +464,14 @@ struct RunOut {
     panicked: bool,
     watchdog_expired: bool,
     worker_panicked: bool,
+    error_visits: usize,
 }
 
 fn real_run(
     roots: &[PathBuf],
     n: usize,
-    quit_at: Option<usize>,
+    quit_at: Vec<usize>,
+    skip_paths: BTreeSet<PathBuf>,
     panic_at: Option<usize>,
     policy: Policy,
     max_steps: usize,
@@ -444,11 +488,13 @@ fn real_run(
             decisions: vec![],
             posts: vec![],
             visits: vec![],
+            error_visits: vec![],
             policy,
             abort: None,
             max_steps,
             init_lens: None,
             quit_at,
+            skip_paths,
             idle_streak: vec![0; n],
             last_progress: std::time::Instant::now(),
             done: false,
@@ -506,15 +552,21 @@ fn real_run(
                 let w = g.running.unwrap_or(usize::MAX);
                 let p = match entry {
                     Ok(e) => e.path().to_path_buf(),
-                    Err(e) => PathBuf::from(format!("<error {}>", e)),
+                    Err(e) => {
+                        // error visits (unreadable directory) are not entries: counted apart, never quit / skip on them
+                        g.error_visits.push(format!("{}", e));
+                        return WalkState::Continue;
+                    }
                 };
                 g.visits.push((step, w, p));
                 if panic_at == Some(idx) {
                     drop(g);
                     std::panic::panic_any(VISITOR_PANIC);
                 }
-                if g.quit_at == Some(idx) {
+                if g.quit_at.contains(&idx) {
                     WalkState::Quit
+                } else if g.skip_paths.contains(&g.visits[idx].2) {
+                    WalkState::Skip
                 } else {
                     WalkState::Continue
                 }
@@ -540,6 +592,7 @@ fn real_run(
         panicked: res.is_err(),
         watchdog_expired: g.watchdog_expired,
         worker_panicked: g.worker_panicked,
+        error_visits: g.error_visits.len(),
     }
 }
 
@@ -563,6 +616,10 @@ fn point_name(p: YieldPoint) -> &'static str {
 struct Case {
     n: usize,
     quit: Option<usize>,
+    /// further visit indices at which the visitor answers Quit (several visitors / threads asking to quit)
+    quit_more: Vec<usize>,
+    /// labels of the entries for which the visitor answers Skip (their children are then not generated)
+    skip: Vec<usize>,
     /// self-test only (`quit=P<k>`): the visitor PANICS at visit k — outside the property's quantifier
     panic_at: Option<usize>,
     forest: Vec<Node>,
@@ -571,13 +628,18 @@ struct Case {
 
 fn show_case(c: &Case) -> String {
     format!(
-        "n={} quit={} forest={} sched={}",
+        "n={} quit={} skip={} forest={} sched={}",
         c.n,
         match (c.panic_at, c.quit) {
             (Some(k), _) => format!("P{}", k),
-            (None, Some(q)) => q.to_string(),
+            (None, Some(q)) => {
+                let mut v = vec![q];
+                v.extend(c.quit_more.iter().copied());
+                dotted(&v)
+            }
             (None, None) => "-".to_string(),
         },
+        if c.skip.is_empty() { "-".to_string() } else { dotted(&c.skip) },
         show_forest(&c.forest),
         c.sched
     )
@@ -587,6 +649,8 @@ fn parse_case(s: &str) -> Option<Case> {
     let mut n = None;
     let mut quit = None;
     let mut panic_at = None;
+    let mut quit_more = vec![];
+    let mut skip = vec![];
     let mut forest = None;
     let mut sched = None;
     for tok in s.split_whitespace() {
@@ -597,13 +661,19 @@ fn parse_case(s: &str) -> Option<Case> {
                 panic_at = Some(v[1..].parse().ok()?);
                 quit = Some(None);
             }
-            "quit" => quit = Some(if v == "-" { None } else { Some(v.parse().ok()?) }),
+            "quit" if v == "-" => quit = Some(None),
+            "quit" => {
+                let qs = parse_dotted(v)?;
+                quit = Some(Some(*qs.first()?));
+                quit_more = qs[1..].to_vec();
+            }
+            "skip" => skip = if v == "-" { vec![] } else { parse_dotted(v)? },
             "forest" => forest = Some(parse_forest(v)?),
             "sched" => sched = Some(v.to_string()),
             _ => return None,
         }
     }
-    let c = Case { n: n?, quit: quit?, panic_at, forest: forest?, sched: sched? };
+    let c = Case { n: n?, quit: quit?, quit_more, skip, panic_at, forest: forest?, sched: sched? };
     if c.n == 0 || c.n > 16 || c.forest.is_empty() {
         return None;
     }
@@ -672,7 +742,18 @@ impl Scratch {
             roots.push(p);
         }
         let mut next = 0;
+        let locked = forest.iter().any(has_locked);
+        if locked {
+            unsafe {
+                setfsuid(65534);
+            }
+        }
         let listed: Vec<Listed> = roots.iter().map(|r| list(r, &mut next)).collect();
+        if locked {
+            unsafe {
+                setfsuid(0);
+            }
+        }
         self.current = Some((key, roots.clone(), listed.clone()));
         (roots, listed)
     }
@@ -706,14 +787,47 @@ fn run_case(c: &Case, case_text: &str, sc: &mut Scratch, drv: &mut Driver, rep: 
     rep.branch(&format!("threads:{}", c.n));
     // Wall-clock policy: the only wall-clock based verdict is the watchdog (60 s without any yield-point arrival).
     // On expiry the same case is run once more with the limit doubled; it is reported only if it expires again.
-    let mut out = real_run(&roots, c.n, c.quit, c.panic_at, policy, max_steps, 60);
+    let mut quits: Vec<usize> = c.quit.into_iter().collect();
+    quits.extend(c.quit_more.iter().copied());
+    let skip_paths: BTreeSet<PathBuf> =
+        labels.iter().filter(|(_, l)| c.skip.contains(l)).map(|(p, _)| p.clone()).collect();
+    // with Skip answers the walker's tree is the listing without the children of the skipped entries
+    let listed: Vec<Listed> = listed.iter().map(|l| prune(l, &c.skip)).collect();
+    let mut expected_labels: Vec<usize> = vec![];
+    for l in &listed {
+        labels_of(l, &mut expected_labels);
+    }
+    expected_labels.sort();
+    if !c.skip.is_empty() {
+        rep.branch("visitor-skip-answers");
+    }
+    if quits.len() > 1 {
+        rep.branch("several-quit-requests");
+    }
+    let locked = c.forest.iter().any(has_locked);
+    if locked {
+        rep.branch("forest-with-unreadable-dir");
+        // the worker threads inherit the file-system uid of the thread that spawns them
+        unsafe {
+            setfsuid(65534);
+        }
+    }
+    let mut out = real_run(&roots, c.n, quits.clone(), skip_paths.clone(), c.panic_at, policy, max_steps, 60);
     if out.watchdog_expired {
         rep.branch("watchdog-expired:rerun-with-doubled-limit");
         let policy2 = make_policy(&c.sched, c.n, est_len).unwrap();
-        out = real_run(&roots, c.n, c.quit, c.panic_at, policy2, max_steps, 120);
+        out = real_run(&roots, c.n, quits.clone(), skip_paths.clone(), c.panic_at, policy2, max_steps, 120);
         if !out.watchdog_expired {
             rep.branch("watchdog-expired:second-run-fine");
             rep.notes.push(format!("watchdog expired once (machine load?), second run fine: {}", case_text));
+        }
+    }
+    if locked {
+        unsafe {
+            setfsuid(0);
+        }
+        if out.error_visits > 0 {
+            rep.branch("error-visit-for-unreadable-dir");
         }
     }
     if let Some(k) = c.panic_at {
@@ -746,7 +860,7 @@ fn run_case(c: &Case, case_text: &str, sc: &mut Scratch, drv: &mut Driver, rep: 
     // ---------------- F: implementation vs specification
     let visited: Vec<usize> =
         out.visits.iter().map(|(_, _, p)| *labels.get(p).unwrap_or(&usize::MAX)).collect();
-    let quit_hit = c.quit.map_or(false, |q| q < visited.len());
+    let quit_hit = quits.iter().any(|q| *q < visited.len());
     if quit_hit {
         rep.branch("visitor-quit-injected");
     }
@@ -769,7 +883,7 @@ fn run_case(c: &Case, case_text: &str, sc: &mut Scratch, drv: &mut Driver, rep: 
         sorted.sort();
         let dup = sorted.windows(2).any(|w| w[0] == w[1]);
         let unknown = sorted.iter().any(|l| *l == usize::MAX);
-        let all: Vec<usize> = (0..nodes).collect();
+        let all: Vec<usize> = expected_labels.clone();
         let bad = if dup {
             Some("an entry was handed to the visitor twice")
         } else if unknown {
@@ -853,7 +967,7 @@ fn run_case(c: &Case, case_text: &str, sc: &mut Scratch, drv: &mut Driver, rep: 
     let req = format!(
         "c07.run (threads {}) (quit {}) (roots{}) (sched{})",
         c.n,
-        c.quit.map_or("-".to_string(), |q| q.to_string()),
+        if quits.is_empty() { "-".to_string() } else { quits.iter().map(|q| q.to_string()).collect::<Vec<_>>().join(" ") },
         roots_sx,
         sched_sx
     );
@@ -926,7 +1040,7 @@ fn run_case(c: &Case, case_text: &str, sc: &mut Scratch, drv: &mut Driver, rep: 
         };
         let mut ms = mv.clone();
         ms.sort();
-        let all: Vec<usize> = (0..nodes).collect();
+        let all: Vec<usize> = expected_labels.clone();
         let dup = ms.windows(2).any(|w| w[0] == w[1]);
         if dup || (!quit_hit && ms != all) {
             violated = true;
@@ -993,6 +1107,17 @@ fn run_case(c: &Case, case_text: &str, sc: &mut Scratch, drv: &mut Driver, rep: 
 }
 
 // ------------------------------------------------------------------ generators
+
+fn lock_some(rng: &mut Rng, n: &mut Node, is_root: bool) {
+    if let Node::D(ks) = n {
+        for k in ks.iter_mut() {
+            lock_some(rng, k, false);
+        }
+        if !is_root && rng.chance(1, 3) {
+            *n = Node::X(std::mem::take(ks));
+        }
+    }
+}
 
 fn gen_node(rng: &mut Rng, budget: &mut usize, depth: usize) -> Node {
     if *budget == 0 || depth >= 4 || rng.chance(1, 3) {
@@ -1088,7 +1213,9 @@ fn main() {
          several roots, a file root), every worker parked at each verif-hooks yield point and released one at a time \
          by a uniform-random, a PCT-style priority or an exhaustive deviation-bounded (dfs: all schedules with <= b \
          pre-emptions / non-default picks relative to non-pre-emptive round-robin, b = 1..3) scheduler; visitor Quit \
-         injected at every visit index. Each observed schedule is replayed in the Lean model. Non-trivial: >= 2 workers \
+         injected at every visit index (also several quit requests in one run, and Skip answers, whose children are \
+         then not generated); up to 8 workers on forests of 1..9 entries (more workers than entries, a single file \
+         root); directories that cannot be listed (entry visit + error visit). Each observed schedule is replayed in the Lean model. Non-trivial: >= 2 workers \
          and (a successful steal or an injected quit that was reached). Distinct by forest + worker sequence.",
     );
     // silence the panics used to tear down an aborted (hung) run
@@ -1163,7 +1290,7 @@ fn main() {
                 if rep.violations.len() >= 6 {
                     break;
                 }
-                let base = Case { n, quit: q, panic_at: None, forest: forest.clone(), sched: String::new() };
+                let base = Case { n, quit: q, quit_more: vec![], skip: vec![], panic_at: None, forest: forest.clone(), sched: String::new() };
                 let (runs, complete) = explore(&base, bound, cap, &mut sc, &mut drv, &mut rep);
                 total_runs += runs;
                 all_complete &= complete;
@@ -1179,6 +1306,8 @@ fn main() {
             let c = Case {
                 n: 2,
                 quit: None,
+                quit_more: vec![],
+                skip: vec![],
                 panic_at: Some(1),
                 forest: parse_forest("d(f,f)").unwrap(),
                 sched: "rand:1".to_string(),
@@ -1197,16 +1326,31 @@ fn main() {
             if i % 8 == 0 {
                 let max_nodes = if i % 64 == 0 { 9 } else { rng.range(2, 7) };
                 forest = gen_forest(&mut rng, max_nodes);
+                if rng.chance(1, 6) {
+                    for r in forest.iter_mut() {
+                        let keep_root = rng.chance(1, 2);
+                        lock_some(&mut rng, r, keep_root);
+                    }
+                }
             }
             let nodes: usize = forest.iter().map(count_nodes).sum();
             let n = if rng.chance(1, 10) { 1 } else { rng.range(2, 4) };
             let quit = if rng.chance(1, 3) { Some(rng.below(nodes + 1)) } else { None };
+            let quit_more: Vec<usize> = if quit.is_some() && rng.chance(1, 3) {
+                (0..rng.range(1, 3)).map(|_| rng.below(nodes + 1)).collect()
+            } else {
+                vec![]
+            };
+            let skip: Vec<usize> =
+                if rng.chance(1, 4) { (0..rng.range(1, 2)).map(|_| rng.below(nodes)).collect() } else { vec![] };
+            // now and then many more workers than entries
+            let n = if rng.chance(1, 12) { rng.range(5, 8) } else { n };
             let sched = if i % 2 == 0 {
                 format!("rand:{}", rng.next() % 1_000_000_007)
             } else {
                 format!("pct:{}:{}", rng.next() % 1_000_000_007, rng.range(1, 4))
             };
-            let c = Case { n, quit, panic_at: None, forest: forest.clone(), sched };
+            let c = Case { n, quit, quit_more, skip, panic_at: None, forest: forest.clone(), sched };
             let text = show_case(&c);
             if i < 8 {
                 rep.sample(text.clone());
